@@ -104,8 +104,13 @@ pub enum Built<T: CoordsFloat> {
 
 /// the user's path: write the text to a file, `from_cmap_file`, attributes, `build`
 pub fn build_from_text<T: CoordsFloat>(text: &str, mask: u32, tag: &str) -> Built<T> {
+    build_from_bytes(text.as_bytes(), mask, tag)
+}
+
+/// same from raw bytes (`loadhex`); invalid UTF-8 makes `read_to_string(..).expect(..)` panic
+pub fn build_from_bytes<T: CoordsFloat>(bytes: &[u8], mask: u32, tag: &str) -> Built<T> {
     let path = tmp_path(tag);
-    std::fs::write(&path, text).expect("harness: cannot write temp file");
+    std::fs::write(&path, bytes).expect("harness: cannot write temp file");
     let b = catch_unwind(AssertUnwindSafe(|| CMapBuilder::<2, T>::from_cmap_file(&path)));
     let _ = std::fs::remove_file(&path);
     let mut b = match b {
@@ -166,6 +171,67 @@ fn tokenise(text: &str) -> String {
         }
     }
     lines.join(" | ")
+}
+
+/// the BYTES of a real serialization with the two coordinate fields of every line after the
+/// `[VERTICES]` header replaced by the exact rational text of the parsed f64; every other byte
+/// (blanks, padding, newlines) is kept: fields are cut at single `' '` characters and re-joined
+fn bytes_with_exact_coords(text: &str) -> String {
+    let mut out = String::with_capacity(text.len());
+    let mut in_vertices = false;
+    for l in text.split_inclusive('\n') {
+        let (body, nl) = match l.strip_suffix('\n') {
+            Some(b) => (b, "\n"),
+            None => (l, ""),
+        };
+        if in_vertices {
+            let fields: Vec<&str> = body.split(' ').collect();
+            let conv: Vec<String> = fields
+                .iter()
+                .enumerate()
+                .map(|(k, f)| {
+                    if (k == 1 || k == 2) && fields.len() == 3 {
+                        match f.parse::<f64>() {
+                            Ok(x) => rat(x),
+                            Err(_) => (*f).to_string(),
+                        }
+                    } else {
+                        (*f).to_string()
+                    }
+                })
+                .collect();
+            out.push_str(&conv.join(" "));
+        } else {
+            out.push_str(body);
+        }
+        out.push_str(nl);
+        if body == "[VERTICES]" {
+            in_vertices = true;
+        }
+    }
+    out
+}
+
+fn hex(bytes: &[u8]) -> String {
+    let mut o = String::with_capacity(2 * bytes.len());
+    for b in bytes {
+        let _ = write!(o, "{b:02x}");
+    }
+    o
+}
+
+fn unhex(s: &str) -> Option<Vec<u8>> {
+    let b = s.as_bytes();
+    if b.len() % 2 != 0 {
+        return None;
+    }
+    let v = |c: u8| match c {
+        b'0'..=b'9' => Some(c - b'0'),
+        b'a'..=b'f' => Some(c - b'a' + 10),
+        b'A'..=b'F' => Some(c - b'A' + 10),
+        _ => None,
+    };
+    b.chunks(2).map(|p| Some(16 * v(p[0])? + v(p[1])?)).collect()
 }
 
 /// `-?digits/digits` (at most 18 digits each, non-zero denominator): the harness' exact
@@ -302,6 +368,30 @@ pub fn step(sess: &mut Sess, toks: &[&str]) -> Option<String> {
                 Built::Layout(e) => format!("layout {e}"),
                 Built::Err(e) => format!("err {e}"),
                 Built::Panic => "panic".into(),
+            })
+        }
+        ["loadhex", mask, rest @ ..] if rest.len() <= 1 => {
+            let Ok(mask) = mask.parse::<u32>() else { return Some("bad-op".into()) };
+            let Some(bytes) = unhex(rest.first().copied().unwrap_or("")) else { return Some("bad-op".into()) };
+            Some(match build_from_bytes::<f64>(&bytes, mask, "loadhex") {
+                Built::Ok(map) => {
+                    crate::attrs::clear_terms();
+                    crate::attrs::FAULT.with(|f| f.set(0));
+                    let mut s = S2::new(0, mask);
+                    s.map = map;
+                    *sess = Sess::D2(s);
+                    "ok".into()
+                }
+                Built::Layout(e) => format!("layout {e}"),
+                Built::Err(e) => format!("err {e}"),
+                Built::Panic => "panic".into(),
+            })
+        }
+        ["serhex"] => {
+            let Sess::D2(s) = sess else { return Some("bad-op".into()) };
+            Some(match serialize_to_string(&s.map) {
+                Some(t) => format!("serhex {}", hex(bytes_with_exact_coords(&t).as_bytes())),
+                None => "panic".into(),
             })
         }
         ["ser"] => {
